@@ -86,6 +86,10 @@ func bytesOf(m map[string]any) []byte {
 
 func String(label string) string { return string(bytesOf(next(label))) }
 
+// StringOf: a string of at most maxLen characters over a character set written as
+// single characters and a-z style ranges (e.g. "a-zA-Z0-9.:-").
+func StringOf(label, charset string, maxLen int) string { return string(bytesOf(next(label))) }
+
 func Bytes(label string, maxLen int) []byte {
 	b := bytesOf(next(label))
 	if b == nil {
